@@ -45,6 +45,9 @@ def _address_value(v, st):
     body = v
     if body.startswith("0x"):
         body = body[2:]
+        if body.startswith("0x") and len(body) == 42:
+            body = body[2:]
+            st.either = True  # doubled prefix in front of 20 bytes: unspecified (the ethaddr dependency accepts it)
     else:
         st.either = True  # un-prefixed address text: unspecified
     if len(body) != 40 or not re.match(r"[0-9a-fA-F]{40}\Z", body):
